@@ -92,6 +92,7 @@ class Target:
         return False
 
     float_sensitive = False
+    compare_return = True    # False: the return value legitimately depends on set iteration order etc.
     abstracted = False       # True: some externs are uninterpreted functions (counter-models may be spurious)
 
     def native_label(self, label):
@@ -130,6 +131,13 @@ class Target:
                 v = r.value
             st.env = env.vars
             return Outcome('return', v)
+        free = getattr(st, 'free', None)
+        if free:
+            # a nested closure: its captured variables are supplied by the contract
+            from .interp import Env
+            env = Env(globs=globs)
+            env.vars.update(free)
+            return Outcome('return', it.run_function(ex.node, st.args, st.kwargs, env=env))
         return Outcome('return', it.run_function(ex.node, st.args, st.kwargs))
 
     def run_native(self, ctx, st):
@@ -145,7 +153,19 @@ class Target:
                 exec(code, globs, env)
                 st.env = env
                 return Outcome('return', None)
-            fn = self.real_function()
+            free = getattr(st, 'free', None)
+            if free:
+                import ast as _ast
+                ex = self.extracted()
+                _, globs = self.module()
+                code = compile(_ast.fix_missing_locations(_ast.Module(body=[ex.node], type_ignores=[])),
+                               '<closure %s>' % self.qualname, 'exec')
+                ns = dict(globs)
+                ns.update(free)
+                exec(code, ns)
+                fn = ns[ex.node.name]
+            else:
+                fn = self.real_function()
             return Outcome('return', fn(*st.args, **st.kwargs))
         except (OutsideSubset, EngineError):
             raise
@@ -184,12 +204,17 @@ class Target:
                 if getattr(ext, 'native_passthrough', False) or type(ext).__name__ == 'Uninterp':
                     continue
                 parts = dotted_name.split('.')
-                if parts[0] not in globs:
-                    raise EngineError("extern %s: root %s is not a global of %s" % (dotted_name, parts[0], mod.__name__))
                 if len(parts) == 1:
+                    # a bare name (module global or builtin such as `open`): shadow it in the module's globals
                     es.enter_context(mock.patch.dict(globs, {parts[0]: ext}))
                     continue
-                parent = globs[parts[0]]
+                if parts[0] not in globs:
+                    try:
+                        parent = importlib.import_module(parts[0])     # a module the target does not import (yet)
+                    except ImportError:
+                        raise EngineError("extern %s: root %s is not a global of %s" % (dotted_name, parts[0], mod.__name__))
+                else:
+                    parent = globs[parts[0]]
                 for p in parts[1:-1]:
                     parent = getattr(parent, p)
                 es.enter_context(mock.patch.object(parent, parts[-1], ext))
